@@ -67,6 +67,7 @@ def gen_c06(tier, seed, stream, k):
     if stream == "matgrow":
         return gen_c06_matgrow(rnd, tier, k)
     nm = gen_hist.Namer()
+    nm.deflook = True
     if stream == "long":
         m = gen_hist.base_lp(rnd, rnd.choice([2, 3]))
         n = rnd.randint(420, 700) if tier == "quick" else rnd.randint(500, 1800)
